@@ -358,7 +358,11 @@ class ECU(UDSClient):
                 logger.debug(f"ECU not ready: {e!r}")
                 if isinstance(e, ConnectionError) or isinstance(e.__cause__, ConnectionError):
                     logger.debug("Reconnecting…")
-                    await self.reconnect()
+                    try:
+                        await self.reconnect()
+                    except ConnectionError as reconnect_error:
+                        # A rebooting ECU may refuse connections for a while; keep waiting.
+                        logger.debug(f"Reconnecting failed: {reconnect_error!r}")
         logger.info("ECU ready")
 
     async def wait_for_ecu(
